@@ -134,7 +134,7 @@ def main(tier_):
     # ---- outcome records for TLC
     recs = []
     stats = collections.Counter()
-    for c, r in zip(cases, results):
+    def make_rec(c, r):
         m = c["meta"]
         bc, br = base_by_id[m["base"]]
         j = m["call"]
@@ -175,10 +175,43 @@ def main(tier_):
         retried = bc["calls"][j].get("op") not in ("open",) or not bc["feat"].get("openat2", True)
         rec = dict(case=c["id"], op=bc["calls"][j].get("op", ""), kind=m["kind"], n=m["n"], site=m["site"], errno=m["errno"], fired=fired,
                    outcome=outcome, errkind=errkind, same_as_base=bool(same), outside_same=outside(shape) == outside(tree_shape(r["init"])),
-                   leaked=bool(leaked), base_ok=bool(base_ok), retried=True)
+                   leaked=bool(leaked), base_ok=bool(base_ok), retried=True, bound=int(m.get("bound", 0)))
         recs.append(rec)
         stats["fired" if fired else "not_fired"] += 1
         stats["outcome_" + outcome] += 1
+        return rec
+    for c, r in zip(cases, results):
+        make_rec(c, r)
+    # ---- the retry bound is not fixed by the property, so it is MEASURED: under a persistent EAGAIN storm the number of
+    # leading openat2 attempts with one and the same path is the bound b of the operation's first lookup; sequences of
+    # b-1, b, b+1 and 2b-1 EAGAINs are then replayed: fewer than b must be ridden out, b or more must surface as a
+    # safety violation (an operation that swallows the aborted lookup and carries on with another one is caught here)
+    stage2 = []
+    for c, r in zip(list(cases), list(results)):
+        m = c["meta"]
+        if m["kind"] != "eagain" or m["n"] < 5000:
+            continue
+        att = [e.get("path") for e in r.get("events", []) if e.get("ev") == "sys" and e.get("nr") == "openat2" and e.get("dfd_class") == "tree" and e.get("call") == m["call"]]
+        b = 0
+        for pth in att:
+            if pth != att[0]:
+                break
+            b += 1
+        if b < 1 or b >= 5000:
+            continue
+        stats["measured_retry_bound_%d" % b] += 1
+        for n in sorted({max(1, b - 1), b, b + 1, 2 * b - 1}):
+            c2 = copy.deepcopy(c)
+            c2["id"] = c["id"].rsplit("|n", 1)[0] + "|n%d|b%d" % (n, b)
+            c2["faults"] = [dict(call=m["call"], nr="openat2", errno=11, count=n)]
+            c2["meta"] = dict(m, n=n, bound=b)
+            stage2.append(c2)
+    if stage2:
+        res2 = run_pv(stage2, jobs=12, tag="C10s2")
+        for c, r in zip(stage2, res2):
+            make_rec(c, r)
+        cases += stage2
+        results += res2
     tr = run_trace_tlc("TraceFault.tla", "TraceFS.cfg", recs)
     if not tr["accepted"] or tr["report"] is None:
         raise ToolError("TraceFault validation failed: %s" % tr["tlc"]["out"][-2000:])
